@@ -95,6 +95,21 @@ class ScaleBuf(torch.nn.Module):
 		return x * self.scale.to(x.dtype).mean()
 
 
+class LazyTable(torch.nn.Module):
+	"""Adds a position-dependent offset that is built on first use and cached on
+	the module (a plain attribute, neither parameter nor buffer)."""
+
+	def __init__(self):
+		super().__init__()
+		self._table = None
+
+	def forward(self, x):
+		if self._table is None or self._table.shape[-1] != x.shape[-1] or \
+				self._table.dtype != x.dtype:
+			self._table = (torch.arange(x.shape[-1], dtype=x.dtype) * 0.01).sin()
+		return x + self._table
+
+
 class CustomAct(torch.nn.Module):
 	"""A user-defined activation that needs `additional_nonlinear_ops`."""
 
@@ -158,6 +173,8 @@ class GenModel(torch.nn.Module):
 				m = FaultPoint()
 			elif t == "scalebuf":
 				m = ScaleBuf()
+			elif t == "lazytable":
+				m = LazyTable()
 			else:
 				raise ValueError(t)
 			layers.append(m)
@@ -320,6 +337,8 @@ def gen_spec(r, L=None, need_nonlinear=True, allow_custom=True, allow_args=True,
 		trunk.append({"t": "act", "name": "ReLU"})
 	if r.chance(0.15):
 		trunk.insert(r.randint(0, len(trunk)), {"t": "scalebuf"})
+	if r.chance(0.15):
+		trunk.insert(r.randint(0, len(trunk)), {"t": "lazytable"})
 	head.append({"t": "linear", "out": n_targets})
 	return {"L": L, "trunk": trunk, "head": head, "n_targets": n_targets,
 		"n_args": (1 if (allow_args and r.chance(0.25)) else 0),
@@ -405,7 +424,9 @@ class Snapshot(object):
 		self.training = {n: m.training for n, m in model.named_modules()}
 		self.grad_enabled = torch.is_grad_enabled()
 		self.probe_X, self.probe_args = probe_X, probe_args
-		res, err = _probe(model, probe_X, probe_args)
+		# the reference probe runs on a deep copy: the model under test must not
+		# have been touched (e.g. lazily initialised) by the harness before the op
+		res, err = _probe(copy.deepcopy(model), probe_X, probe_args)
 		self.probe_err = err
 		self.probe = None if res is None else [_tbytes(t) for t in res]
 
